@@ -148,6 +148,7 @@ type c11result struct {
 	exactChecked int
 	exactWrong   int
 	skipped      int
+	excluded     int // searches in whose tree a history draw can arise (outside the property)
 }
 
 // runC11 plays one sequence of searches sharing one table and validates scores, PVs and every
@@ -189,6 +190,16 @@ func runC11(ctx context.Context, cs c11case, vm *valueMemo) (res c11result) {
 			continue
 		}
 		b, g := newSearchBoards(st.root, 0)
+		// the property excludes searches in whose tree a repetition or fifty-move draw can arise: a
+		// third occurrence needs 8 plies of reversible play (history tail + depth), the clock 100
+		tail := 0
+		for i := len(g.Moves) - 1; i >= 0 && !ref.IsZeroing(g.Moves[i]) && g.Moves[i].Kind != ref.CastleK && g.Moves[i].Kind != ref.CastleQ; i-- {
+			tail++
+		}
+		if tail+st.depth >= 8 || g.CurClock()+st.depth >= 100 {
+			res.excluded++
+			continue
+		}
 		legalMoves := g.Cur().Legal()
 		rootFEN := g.Cur().FEN(0, 1)
 		mark := len(tt.writes)
@@ -307,6 +318,9 @@ func checkC11(c *harness.Check) {
 		c.Transitions.Add(int64(res.exactChecked))
 		c.AddExtra("exact_entries_validated", int64(res.exactChecked))
 		c.AddExtra("exact_entries_wrong", int64(res.exactWrong))
+		if res.excluded > 0 {
+			c.AddExtra("searches_excluded_history_draw_possible", int64(res.excluded))
+		}
 		if res.skipped > 0 {
 			c.AddExtra("values_skipped_reference_budget", int64(res.skipped))
 		}
